@@ -104,14 +104,14 @@ def wf_refs(arr, comp, alloc):
     r, i = bvar("r"), bvar("i")
     if comp == "lel":
         v = z3.Select(z3.Select(arr, r), i)
-        return z3.ForAll([r, i], z3.Implies(is_VRef(v), z3.And(ref(v) >= 0, ref(v) < alloc)), patterns=[v])
+        return z3.ForAll([r, i], z3.Implies(is_VRef(v), ref(v) < alloc), patterns=[v])
     if comp == "dval":
         k = bvarV("k")
         v = z3.Select(z3.Select(arr, r), k)
-        return z3.ForAll([r, k], z3.Implies(is_VRef(v), z3.And(ref(v) >= 0, ref(v) < alloc)), patterns=[v])
+        return z3.ForAll([r, k], z3.Implies(is_VRef(v), ref(v) < alloc), patterns=[v])
     if comp.startswith("f_"):
         v = z3.Select(arr, r)
-        return z3.ForAll([r], z3.Implies(is_VRef(v), z3.And(ref(v) >= 0, ref(v) < alloc)), patterns=[v])
+        return z3.ForAll([r], z3.Implies(is_VRef(v), ref(v) < alloc), patterns=[v])
     return None
 
 
@@ -120,13 +120,13 @@ def wf_cell(val, comp, alloc):
     if comp == "lel":
         i = bvar("i")
         v = z3.Select(val, i)
-        return z3.ForAll([i], z3.Implies(is_VRef(v), z3.And(ref(v) >= 0, ref(v) < alloc)), patterns=[v])
+        return z3.ForAll([i], z3.Implies(is_VRef(v), ref(v) < alloc), patterns=[v])
     if comp == "dval":
         k = bvarV("k")
         v = z3.Select(val, k)
-        return z3.ForAll([k], z3.Implies(is_VRef(v), z3.And(ref(v) >= 0, ref(v) < alloc)), patterns=[v])
+        return z3.ForAll([k], z3.Implies(is_VRef(v), ref(v) < alloc), patterns=[v])
     if comp.startswith("f_"):
-        return z3.Implies(is_VRef(val), z3.And(ref(val) >= 0, ref(val) < alloc))
+        return z3.Implies(is_VRef(val), ref(val) < alloc)
     return None
 
 
